@@ -45,6 +45,16 @@ def make_source(source, pieces, keep):
 		return (p for p in pieces)
 	if source == 'bytesio':
 		return io.BytesIO(data)
+	if source == 'bytesio-end':
+		f = io.BytesIO()
+		f.write(data)             # filled by write(): the position is at the end
+		return f
+	if source == 'file-end':
+		f = tempfile.TemporaryFile(dir=os.environ.get('VERIF_SCRATCH') or None)
+		f.write(data)
+		f.flush()
+		keep.append(f)
+		return f
 	if source == 'file':
 		f = tempfile.TemporaryFile(dir=os.environ.get('VERIF_SCRATCH') or None)
 		f.write(data)
